@@ -607,13 +607,12 @@ class IOBasePayload(Payload):
         as well as constrained and unconstrained content lengths.
 
         """
-        loop = asyncio.get_running_loop()
         total_written_len = 0
         remaining_content_len = content_length
 
         # Get initial data and available length
-        available_len, chunk = await loop.run_in_executor(
-            None, self._read_and_available_len, remaining_content_len
+        available_len, chunk = await self._finish_read(
+            self._read_and_available_len, remaining_content_len
         )
         # Process data chunks until done
         while chunk:
@@ -635,8 +634,7 @@ class IOBasePayload(Payload):
                 return
 
             # Read next chunk
-            chunk = await loop.run_in_executor(
-                None,
+            chunk = await self._finish_read(
                 self._read,
                 (
                     min(DEFAULT_CHUNK_SIZE, remaining_content_len)
@@ -644,6 +642,19 @@ class IOBasePayload(Payload):
                     else DEFAULT_CHUNK_SIZE
                 ),
             )
+
+    @staticmethod
+    async def _finish_read(read: Any, remaining_content_len: int | None) -> Any:
+        # A job of the executor cannot be interrupted: a cancelled writer ends
+        # after its read has returned, or that read goes on moving the file
+        # position under whoever sends the payload next (redirect, retry).
+        loop = asyncio.get_running_loop()
+        job = loop.run_in_executor(None, read, remaining_content_len)
+        try:
+            return await asyncio.shield(job)
+        except asyncio.CancelledError:
+            await asyncio.wait((job,))
+            raise
 
     def _should_stop_writing(
         self,
